@@ -368,8 +368,13 @@ func (g *bindGen) argFor(name string, allowBulk bool) any {
 			n = 0
 		}
 		s := reflect.MakeSlice(reflect.SliceOf(t), 0, n)
+		allZero := t.Kind() == reflect.Struct && r.chance(1, 5) // every omitempty member zero in every row
 		for i := 0; i < n; i++ {
-			s = reflect.Append(s, mk().Elem())
+			if allZero {
+				s = reflect.Append(s, reflect.Zero(t))
+			} else {
+				s = reflect.Append(s, mk().Elem())
+			}
 		}
 		return s.Interface()
 	case form < 18 && allowBulk && t.Kind() != reflect.Slice:
@@ -430,8 +435,47 @@ func (g *bindGen) next() bindCase {
 	return c
 }
 
+// bulkPair: an asterisk insert from two bulk slices, the second of a type whose members are all
+// omitempty (so that its columns disappear when every row is zero), of equal or different lengths.
+func (g *bindGen) bulkPair() bindCase {
+	r := g.r
+	t1 := r.pick([]string{"Person", "Address", "Omit", "PtrFields"})
+	first, second := t1, "AutoID"
+	if r.chance(1, 3) {
+		first, second = "AutoID", t1
+	}
+	c := bindCase{query: "INSERT INTO t (*) VALUES ($" + first + ".*, $" + second + ".*)"}
+	c.samples = []any{zooByName(first), zooByName(second)}
+	mkSlice := func(name string, n int, zero bool) any {
+		t := reflect.TypeOf(zooByName(name))
+		s := reflect.MakeSlice(reflect.SliceOf(t), 0, n)
+		for i := 0; i < n; i++ {
+			el := reflect.New(t).Elem()
+			if !zero {
+				ff := &filler{r: r.fork(), zeroP: 0, nilP: 0}
+				ff.counter = uint64(3000 + 10*i)
+				ff.fill(el, 0)
+			}
+			s = reflect.Append(s, el)
+		}
+		return s.Interface()
+	}
+	n1 := 1 + r.intn(3)
+	n2 := n1
+	if r.chance(2, 3) {
+		n2 = 1 + r.intn(3)
+	}
+	z1 := first == "AutoID" && r.chance(2, 3)
+	z2 := second == "AutoID" && r.chance(2, 3)
+	c.args = []any{mkSlice(first, n1, z1), mkSlice(second, n2, z2)}
+	return c
+}
+
 func (g *bindGen) next1() bindCase {
 	r := g.r
+	if r.chance(1, 40) {
+		return g.bulkPair()
+	}
 	p := &stmtPlan{types: map[string]bool{}, ins: map[string]bool{}}
 	var b strings.Builder
 	hasInsert := false
